@@ -334,6 +334,75 @@ def check_switch_case(ctx, case):
                       {"case": _ser(case), "finding_key": "energy-wrong-after-matrix-switch-" + b})
 
 
+# ---- binding truncation on emu-mps: the normalisation clause is exact whatever the truncation discards ------------
+# fill_results hands `1/norm * state` to every observable: every stored state has norm 1 to rounding level and every
+# observable is evaluated on a normalised state, even when max_bond_dim / precision throw weight away at every SVD.
+# Energy conservation is NOT asserted here: truncation (projection onto bond dimension 1-4) legitimately changes
+# <H>; only its size is recorded in the evidence.
+TRUNC_NORM = 1e-9
+
+
+def gen_trunc_case(rng, tier_thorough):
+    n = rng.choice([6, 8, 10, 12] if tier_thorough else [6, 8, 10])
+    case = make_problem(rng, n, chain=True)
+    prob = case["prob"]
+    # strong constant drive so that entanglement (hence discarded weight) builds up quickly
+    steps = prob["steps"]
+    om = np.full(n, rng.uniform(6.0, 12.0))
+    de = np.full(n, rng.uniform(-2.0, 6.0))
+    for k in range(steps):
+        prob["omega"][k], prob["delta"][k], prob["phi"][k] = om, de, np.zeros(n)
+    dt = rng.choice([10.0, 20.0, 40.0])
+    prob["times"] = [k * dt for k in range(steps + 1)]
+    case.update(backend="mps", tol=rng.choice([1e-2, 3e-3, 1e-3]), max_bond_dim=rng.choice([1, 2, 2, 3, 4]),
+                seed=rng.randrange(2 ** 31), windows=1, per=steps, trunc=True)
+    return case
+
+
+def check_trunc_case(ctx, case):
+    import emu_mps
+    from pulser.backend import Energy, Occupation, StateResult
+
+    prob = case["prob"]
+    times = prob["times"]
+    et = [t / times[-1] for t in times]
+    try:
+        with warnings.catch_warnings():
+            warnings.simplefilter("ignore")
+            cfg = emu_mps.MPSConfig(observables=[StateResult(evaluation_times=et), Occupation(evaluation_times=et),
+                                                 Energy(evaluation_times=et)],
+                                    log_level=logging.CRITICAL, precision=case["tol"], max_bond_dim=case["max_bond_dim"],
+                                    optimize_qubit_ordering=False, num_gpus_to_use=0)
+            res = emu_mps.MPSBackend._run_from_sequence_data(D.to_sequence_data(prob), cfg)
+    except Exception as ex:  # noqa: BLE001
+        ctx.violation(f"emu-mps raised on a constant-drive noiseless input with binding truncation: {ex!r}",
+                      {"case": _ser(case), "finding_key": "conservation-raises"})
+        return
+    stored = res.get_result_times("state")
+    norms = [float(res.get_result("state", t).norm()) for t in stored]
+    occ = np.array([[float(x) for x in res.get_result("occupation", t)] for t in stored])
+    E = [float(res.get_result("energy", t)) for t in stored]
+    nerr = max(abs(x - 1.0) for x in norms)
+    oerr = max(0.0, float(-occ.min()), float(occ.max() - 1.0))
+    bond = max(res.get_result("state", t).get_max_bond_dim() for t in stored)
+    cal = ctx.extra.setdefault("calibration", {})
+    cal["mps-truncated:|norm-1|"] = max(cal.get("mps-truncated:|norm-1|", 0.0), nerr)
+    cal["mps-truncated:occupation outside [0,1]"] = max(cal.get("mps-truncated:occupation outside [0,1]", 0.0), oerr)
+    scale = 1.0 + float(np.abs(prob["omega"][0]).sum() / 2 + np.abs(prob["delta"][0]).sum() + np.triu(np.abs(prob["U"]), 1).sum())
+    cal["mps-truncated:energy drift (relative, recorded only)"] = max(
+        cal.get("mps-truncated:energy drift (relative, recorded only)", 0.0), (max(E) - min(E)) / scale)
+    ctx.count_case({"kind": "truncated", "n": prob["n"], "steps": prob["steps"], "precision": case["tol"],
+                    "max_bond_dim": case["max_bond_dim"], "bond_reached": bond, "norm_err": nerr},
+                   nontrivial=bond >= case["max_bond_dim"])
+    if nerr > TRUNC_NORM:
+        ctx.violation(f"emu-mps: a stored state has |norm-1| = {nerr:.3g} (> {TRUNC_NORM}) in a noiseless run with binding "
+                      f"truncation (max_bond_dim {case['max_bond_dim']}, precision {case['tol']}): results are not normalised",
+                      {"case": _ser(case), "norms": norms, "finding_key": "state-not-normalised-under-truncation"})
+    if oerr > 1e-9:
+        ctx.violation(f"emu-mps: an occupation leaves [0,1] by {oerr:.3g} under binding truncation",
+                      {"case": _ser(case), "finding_key": "occupation-out-of-range-under-truncation"})
+
+
 def _ser(case):
     c = dict(case)
     c["prob"] = {k: (v.tolist() if hasattr(v, "tolist") else v) for k, v in case["prob"].items()}
@@ -358,11 +427,13 @@ def run(ctx):
     common.standard_proof_stage(ctx, "C28", ["Properties/C28.vo"])
     pin_stage(ctx)
     for c in corpus_cases():
-        (check_switch_case if c.get("switch") else check_case)(ctx, c)
+        (check_trunc_case if c.get("trunc") else check_switch_case if c.get("switch") else check_case)(ctx, c)
     for _ in range(ctx.n(30, 500)):
         check_case(ctx, gen_case(ctx.rng, ctx.thorough()))
     for _ in range(ctx.n(16, 300)):
         check_switch_case(ctx, gen_switch_case(ctx.rng, ctx.thorough()))
+    for _ in range(ctx.n(10, 150)):
+        check_trunc_case(ctx, gen_trunc_case(ctx.rng, ctx.thorough()))
     cal = ctx.extra.get("calibration", {})
     ok = all(v <= 1e-10 for k, v in cal.items() if k.endswith("antihermiticity_defect"))
     ctx.obligation("correspondence:captured krylov_exp operators of real runs are anti-Hermitian (random-vector probe)",
@@ -374,7 +445,10 @@ def run(ctx):
                 "both backends) whose interaction matrix switches once (rows/columns of 1-2 atoms zero before t_switch, "
                 "on a grid time or inside a step): energy and second moment constant inside every window of constant "
                 "(drive, matrix) and equal to the dense value of the window's Hamiltonian on the dense-evolved state; "
-                "non-trivial = the run really has >= 2 matrix windows")
+                "non-trivial = the run really has >= 2 matrix windows. Plus emu-mps runs with BINDING truncation (6-12 atom chains, "
+                "strong constant drive, max_bond_dim 1-4, precision 1e-2..1e-3): every stored state has |norm-1| <= 1e-9 and "
+                "every occupation lies in [0,1]; energy conservation is not asserted there (truncation changes <H>; the "
+                "drift is only recorded); non-trivial = the bond dimension cap is reached")
     ctx.trusted_base += ["C06_H_hermitian / mpo_hermitian for the Hermiticity of the two Hamiltonians",
                          "source pin + random-vector probe tie the Coq lemmas' operator shapes to the code"]
     ctx.assumptions += [
@@ -391,7 +465,7 @@ def replay(ctx, path):
     rp = json.load(open(path))
     if "case" in rp:
         c = _deser(rp["case"])
-        (check_switch_case if c.get("switch") else check_case)(ctx, c)
+        (check_trunc_case if c.get("trunc") else check_switch_case if c.get("switch") else check_case)(ctx, c)
 
 
 META = {
